@@ -245,12 +245,10 @@ def check_shapes(ctx):
               f"SccWord.{name} no longer delegates to from_bytes (parity would not be stripped)")
   # lookup order of _find_code
   fc = w.methods["_find_code"]
-  order = []
-  for n in ast.walk(fc.node):
-    if isinstance(n, ast.BoolOp) and isinstance(n.op, ast.Or):
-      for v in n.values:
-        if isinstance(v, ast.Call) and isinstance(v.func, ast.Attribute) and v.func.attr == "find":
-          order.append(unparse(v.func.value))
+  # the classes are consulted in source order, the first hit wins (an `or` chain, or one lookup after the other with a return on a hit)
+  finds = [v for v in own_nodes(fc.node) if isinstance(v, ast.Call) and isinstance(v.func, ast.Attribute) and v.func.attr == "find"]
+  finds.sort(key=lambda v: (v.lineno, v.col_offset))
+  order = [unparse(v.func.value) for v in finds]
   guarded = any(isinstance(n, ast.If) and "is_code()" in unparse(n.test) for n in own_nodes(fc.node))
   return order, guarded
 
